@@ -177,6 +177,26 @@ func c15One(c *fw.Ctx, kind string, src []byte) {
 		}); sig != "" {
 			c.Violate("panic/RestoreFile-extras", sig, "corruption="+kind+"\n"+detail, string(src))
 		}
+		// a second pass: the ast the restorer made is decorated again (on the restorer's file set)
+		// and printed again
+		if e.name == "decorator.Parse" {
+			if sig, detail := fw.Try(func() {
+				r := decorator.NewRestorer()
+				af, err := r.RestoreFile(dst.Clone(f).(*dst.File))
+				if err != nil || af == nil {
+					return
+				}
+				f2, err := decorator.NewDecorator(r.Fset).DecorateFile(af)
+				if err != nil || f2 == nil {
+					return
+				}
+				var b bytes.Buffer
+				_ = decorator.Fprint(&b, f2)
+			}); sig != "" {
+				c.Violate("panic/redecorate-restored-ast", sig, "corruption="+kind+"\n"+detail, string(src))
+			}
+			c.Count("second_passes", 1)
+		}
 		// printing into the caller's own file set (which already holds files), twice with one restorer
 		if e.name == "Decorator.ParseFile" && sharedFset != nil {
 			if sig, detail := fw.Try(func() {
